@@ -586,3 +586,29 @@ func (r *Run) finish(code int) {
 	}
 	os.Exit(0)
 }
+
+// Fuzzing reports whether this process is part of a native fuzz campaign (coordinator or worker).
+func Fuzzing() bool {
+	if f := flag.Lookup("test.fuzz"); f != nil && f.Value.String() != "" {
+		return true
+	}
+	if f := flag.Lookup("test.fuzzworker"); f != nil && f.Value.String() == "true" {
+		return true
+	}
+	return false
+}
+
+// FuzzFail is called by a native fuzz target when its oracle rejects a case. Inside a campaign it
+// just fails the input (Go minimises it and writes it under testdata/fuzz/<target>/). When the
+// saved inputs are re-run as ordinary tests - which `go test` does for every file in that
+// directory, and which the driver's shards do after a campaign - the failure is recorded like any
+// generated case: replay file + VIOLATION line. The check named `name` must also be registered by an
+// ordinary test (evid.Register) so that --replay finds its oracle.
+func FuzzFail[C any](t *testing.T, name string, c C, err error) {
+	if Fuzzing() || R == nil {
+		t.Fatal(err)
+		return
+	}
+	R.Violation(name, c, err.Error())
+	R.afterProp(t, name, -1)
+}
